@@ -31,7 +31,7 @@ def sort_case(draw, tier):
     maxrows = 8 if tier == "quick" else 24
     nf = draw(st.integers(1, 4))
     hdr = draw(gen.header(n=nf))
-    p = draw(gen.pool(KEYCOL, 2, 4))
+    p = draw(gen.twinned_pool(KEYCOL, 2, 4))
     idc = draw(st.one_of(st.none(), st.integers(0, nf - 1))) if nf > 1 else None
     cols = [st.sampled_from(p) for _ in range(nf)]
     tbl = draw(gen.table(hdr, cols, max_rows=maxrows, ragged=draw(st.booleans()), id_col=idc))
